@@ -489,7 +489,8 @@ def normalized(ctx, fi, depth=2, do_canon=True, keep=()):
     # resolution of calls inside the copy needs parent links and function tables: work on the original for resolution by
     # mapping each copied call back to its original through position
     orig_calls = {}
-    for n in ast.walk(fi.node):
+    # all calls of the module: the body of an inlined helper brings calls from that helper's source position with it
+    for n in ast.walk(fi.module.tree):
         if isinstance(n, ast.Call):
             orig_calls[(n.lineno, n.col_offset, ast.dump(n.func))] = n
 
